@@ -56,14 +56,8 @@ Proof.
   rewrite mapM_some. simpl. rewrite map_map. reflexivity.
 Qed.
 Lemma sid_col_correct t rows j : table_ok t rows -> 0 <= j -> (forall r, In r rows -> j < len r) ->
-  (exists r, In r rows /\ field r j <> []) ->
   typed_col t j TSid = spec_col rows (j, TSid).
-Proof.
-  intros Hok Hj Hl [r [Hr Hne]].
-  transitivity (typed_col t j TStr); [|apply str_col_correct; assumption].
-  unfold typed_col. apply sid_partial. rewrite (texts_of_table t rows j (ok_fields _ _ Hok) Hj Hl).
-  exists (field r j). split; [apply in_map_iff; exists r; split; [reflexivity|exact Hr]|exact Hne].
-Qed.
+Proof. intros Hok Hj Hl. transitivity (typed_col t j TStr); [reflexivity|apply str_col_correct; assumption]. Qed.
 (* integer columns (T1 + T2) *)
 Lemma int_col_correct t rows j : table_ok t rows -> 0 <= j -> (forall r, In r rows -> j < len r) ->
   (forall r, In r rows -> numeral (field r j) = true) ->
@@ -115,11 +109,10 @@ Theorem bed3_end_to_end : forall (crlf : bool) (hs : list (list Z)) (rows : list
   rows <> [] ->
   (forall r, In r rows -> len r = 3 /\ (forall f, In f r -> clean f)
                           /\ numeral (field r 1) = true /\ numeral (field r 2) = true) ->
-  (exists r, In r rows /\ field r 0 <> []) ->
   hd0 (body_of crlf rows) <> 35 ->
   run Fbed3 None (lay (eol_of crlf) hs ++ body_of crlf rows) = Obs (len rows) (spec_cols Fbed3 None rows) true.
 Proof.
-  intros crlf hs rows Hh Hne H Hchrom Hb.
+  intros crlf hs rows Hh Hne H Hb.
   unfold run. cbn [comment_byte]. rewrite skip_header_correct by (try assumption; lia).
   cbn [table_of].
   destruct (table_of_rows crlf 3 rows ltac:(lia) Hne (fun r Hr => conj (proj1 (H r Hr)) (proj1 (proj2 (H r Hr)))))
@@ -127,7 +120,7 @@ Proof.
   rewrite Ht. cbn [eager_format andb]. rewrite Hl. f_equal.
   unfold run_cols, spec_cols. cbn [schema bed3_cols has_geno map app fst snd].
   assert (L : forall j, j < 3 -> forall r, In r rows -> j < len r) by (intros j Hj r Hr; destruct (H r Hr) as [E _]; lia).
-  rewrite (sid_col_correct t rows 0 Hok ltac:(lia) (L 0 ltac:(lia)) Hchrom).
+  rewrite (sid_col_correct t rows 0 Hok ltac:(lia) (L 0 ltac:(lia))).
   rewrite (int_col_correct t rows 1 Hok ltac:(lia) (L 1 ltac:(lia)) (fun r Hr => proj1 (proj2 (proj2 (H r Hr))))).
   rewrite (int_col_correct t rows 2 Hok ltac:(lia) (L 2 ltac:(lia)) (fun r Hr => proj2 (proj2 (proj2 (H r Hr))))).
   reflexivity.
